@@ -69,7 +69,7 @@ def env():
     return _env
 
 
-def make_callbacks(b, rules, log):
+def make_callbacks(b, rules, log, enq=None):
     irclib, ircmsgs = b.irclib, b.ircmsgs
 
     class EntryRec(irclib.IrcCallback):
@@ -98,6 +98,16 @@ def make_callbacks(b, rules, log):
             if self.kind == 'rewrite':
                 return ircmsgs.IrcMsg(prefix=msg.prefix, command=self.newcmd, args=msg.args,
                                       server_tags=dict(msg.server_tags))
+            if self.kind in ('resend', 'requeue', 'sendalso'):
+                # re-entrant filters: they call irc.sendMsg / irc.queueMsg themselves
+                new = ircmsgs.IrcMsg(prefix=msg.prefix, command=self.newcmd, args=msg.args,
+                                     server_tags=dict(msg.server_tags))
+                fast = self.kind != 'requeue'
+                ret = irc.sendMsg(new) if fast else irc.queueMsg(new)
+                if enq is not None:
+                    accepted = (not irc.zombie) if fast else bool(ret)
+                    enq.append((len(log), fast, new, accepted))
+                return msg if self.kind == 'sendalso' else None
             return msg
 
     # applied in reversed(callbacks) order: EntryRec, rules…, ExitRec
@@ -177,6 +187,10 @@ class Impl(object):
     def fail(self, msg, finding=None):
         self.fails.append((self.opi, msg, finding))
 
+    def klass_impl(self, m):
+        irclib = self.b.irclib
+        return 0 if m.command in irclib._high else (2 if m.command in irclib._low else 1)
+
     def klass(self, m):
         # the statement's own notion for the core commands, the implementation's tables otherwise
         if m.command in URGENT: return 0
@@ -230,7 +244,8 @@ class Impl(object):
         self.clk.t = t
         self.apply_cfg()
         self.chain = []
-        self.cbs = make_callbacks(self.b, self.rules, self.chain)
+        self.enq = []
+        self.cbs = make_callbacks(self.b, self.rules, self.chain, self.enq)
         self.irc = self.b.irclib.Irc('test', callbacks=self.cbs)
         self.irc.driver = StubDriver(self)
         for m in self.pending():
@@ -272,7 +287,7 @@ class Impl(object):
             self.rules = [tuple(r) for r in op[1]]
             if irc is None:
                 return None
-            self.cbs[:] = make_callbacks(self.b, self.rules, self.chain)
+            self.cbs[:] = make_callbacks(self.b, self.rules, self.chain, self.enq)
         elif k == 'new':
             self.new(op[1])
             return 'N\t-\t-\t~\t' + self.state()
@@ -362,6 +377,7 @@ class Impl(object):
     def do_take(self, before, bq, zombie_before):
         irc = self.irc
         del self.chain[:]
+        del self.enq[:]
         now = self.clk.t
         th, jl = self.cfg[0], self.cfg[1]
         # the label (labeled-response) is written into the dequeued object itself: describe the
@@ -394,8 +410,16 @@ class Impl(object):
         # --- oracle
         f, h, n, l = [list(x) for x in bq]
         reset_happened = self.disc is not None
+        enq = list(self.enq)
+        incall = collections.Counter()
         for i, (src, out, was_tagged) in enumerate(chain):
             last = (i == len(chain) - 1)
+            # what the filters sent / queued while the previous messages of this call were processed
+            for pos, efast, em, eacc in enq:
+                if pos == i and eacc:
+                    (f if efast else (h, n, l)[self.klass_impl(em)]).append(em)
+                    self.note_accept(em); incall[id(em)] += 1
+                    self.tags.add('filter-sent-in-take' if efast else 'filter-queued-in-take')
             if f:
                 if src is not f[0]:
                     self.fail('takeMsg processed %s while %s is at the head of the fast queue' % (self.ser(src), self.ser(f[0])))
@@ -467,6 +491,11 @@ class Impl(object):
                             self.fail('JOIN rate: JOINs released at %d and %d with rateLimit.join %d' % (self.last_join, now, jl))
                         self.last_join = now
                         self.tags.add('join-released')
+        for pos, efast, em, eacc in enq:
+            if pos == len(chain) and eacc:
+                self.note_accept(em); incall[id(em)] += 1
+                self.tags.add('filter-sent-in-take' if efast else 'filter-queued-in-take')
+        before = before + incall
         if r is not None and not chain:
             self.fail('takeMsg returned %s which never went through the filter chain' % self.ser(r))
         # conservation for this call
@@ -517,7 +546,8 @@ class DriverImpl(Impl):
         self.clk.t = t
         self.apply_cfg()
         self.chain = []
-        self.cbs = make_callbacks(self.b, self.rules, self.chain)
+        self.enq = []
+        self.cbs = make_callbacks(self.b, self.rules, self.chain, self.enq)
         self.irc = self.b.irclib.Irc('test', callbacks=self.cbs)
         d, stub, fs, st = R.fresh(irc=self.irc)
         self.driver = d
@@ -690,7 +720,7 @@ def gen_rules(r):
         return []
     rules = []
     for _ in range(r.randint(1, 3)):
-        kind = r.choice(['drop', 'drop', 'raise', 'rewrite', 'same'])
+        kind = r.choice(['drop', 'drop', 'raise', 'rewrite', 'same', 'resend', 'requeue', 'sendalso'])
         cmd = r.choice(HIGH + NORMAL + LOW)
         rules.append([kind, cmd, r.choice(['PRIVMSG', 'NOTICE', 'JOIN', 'MODE', 'XYZ', cmd])])
     return rules
